@@ -281,12 +281,17 @@ func (r *Reader) parseWorksheet(data []byte, name string, index int) (*Sheet, er
 			maxRow = row.R
 		}
 		for _, cell := range row.Cells {
-			col, _, err := ParseCellRef(cell.R)
+			col, cellRow, err := ParseCellRef(cell.R)
 			if err != nil {
 				continue
 			}
 			if col > maxCol {
 				maxCol = col
+			}
+			// The r attribute of <row> is optional; the cell reference is
+			// what addresses the cell.
+			if cellRow+1 > maxRow {
+				maxRow = cellRow + 1
 			}
 		}
 	}
@@ -311,14 +316,14 @@ func (r *Reader) parseWorksheet(data []byte, name string, index int) (*Sheet, er
 
 	// Second pass: populate cells
 	for _, row := range ws.SheetData.Rows {
-		rowIdx := row.R - 1 // Convert to 0-indexed
-		if rowIdx < 0 || rowIdx >= len(sheet.Rows) {
-			continue
-		}
-
 		for _, cellXML := range row.Cells {
-			col, _, err := ParseCellRef(cellXML.R)
+			// Place the cell where its own reference says, not where the
+			// enclosing <row> claims to be (its r attribute may be absent).
+			col, rowIdx, err := ParseCellRef(cellXML.R)
 			if err != nil {
+				continue
+			}
+			if rowIdx < 0 || rowIdx >= len(sheet.Rows) {
 				continue
 			}
 			if col < 0 || col >= len(sheet.Rows[rowIdx]) {
